@@ -45,7 +45,10 @@ pub async fn resolve_list<'a, T: OutputType + 'a>(
             });
         }
         Ok(Value::List(
-            futures_util::future::try_join_all(futures).await?,
+            futures_util::future::join_all(futures)
+                .await
+                .into_iter()
+                .collect::<ServerResult<Vec<_>>>()?,
         ))
     } else {
         let mut futures = len.map(Vec::with_capacity).unwrap_or_default();
@@ -58,7 +61,10 @@ pub async fn resolve_list<'a, T: OutputType + 'a>(
             });
         }
         Ok(Value::List(
-            futures_util::future::try_join_all(futures).await?,
+            futures_util::future::join_all(futures)
+                .await
+                .into_iter()
+                .collect::<ServerResult<Vec<_>>>()?,
         ))
     }
 }
